@@ -664,11 +664,11 @@ fn ctl_label() -> BoxedStrategy<String> {
     .boxed()
 }
 
-fn api_strategy() -> BoxedStrategy<Case> {
+pub fn api_strategy() -> BoxedStrategy<Case> {
     (iftable(2), ctl_label(), prop::collection::vec(api_op(), 1..8)).prop_map(|(ifs, ctl_label, ops)| Case { ifs, ctl_label, ops }).boxed()
 }
 
-fn packet_strategy() -> BoxedStrategy<Case> {
+pub fn packet_strategy() -> BoxedStrategy<Case> {
     let op = prop_oneof![
         10 => packet_op(),
         1 => (any::<bool>(), any::<bool>()).prop_map(|(host, probe)| Op::Conflict { host, probe }),
